@@ -1,4 +1,53 @@
-Require Import LV.Common.Bytes LV.Model.Base64Model.
+(* C18 - Base64 codec is exact and strict.  Statements only; proofs are in Proofs/Base64Proofs.v. *)
+Require Import LV.Common.Bytes LV.Gen.Gen_base64 LV.Model.Base64Model LV.Spec.Base64Spec LV.Proofs.Base64Proofs.
 Local Open Scope Z_scope.
-Theorem placeholder : True. Proof. exact I. Qed.
-Print Assumptions placeholder.
+
+(* the tables found in src/crypto.c (regenerated on every run) are the RFC 4648 ones *)
+Theorem b64_tables_are_rfc4648 :
+  b64_chr = spec_alphabet ++ [spec_pad] /\ b64_inv = spec_inv.
+Proof. exact Gen_b64_ok. Qed.
+Print Assumptions b64_tables_are_rfc4648.
+
+Theorem b64_encode_canonical :
+  forall bs, bytes bs -> encode bs = spec_encode bs.
+Proof. exact encode_canonical. Qed.
+Print Assumptions b64_encode_canonical.
+
+Theorem b64_roundtrip :
+  forall bs, bytes bs -> bs <> [] ->
+    decode_bin (encode bs) = DOk (map Some bs ++ [Some 0]) (zlen bs).
+Proof. exact roundtrip. Qed.
+Print Assumptions b64_roundtrip.
+
+(* accepted exactly on the correctly padded strings, with the RFC value and its length;
+   everything else (including the empty string) is refused *)
+Theorem b64_decode_exact :
+  forall s, bytes s ->
+    (valid_b64 s = true ->
+       exists buf, decode_bin s = DOk buf (zlen (spec_decode s)) /\
+                   decode_bin_value s = Some (spec_decode s)) /\
+    (valid_b64 s = false -> decode_bin s = DReject).
+Proof. exact decode_exact. Qed.
+Print Assumptions b64_decode_exact.
+
+(* never hands out uninitialised or over-long data: n+1 cells, all written, NUL after the value *)
+Theorem b64_decode_initialised :
+  forall s buf n, bytes s -> decode s = DOk buf n ->
+    zlen buf = n + 1 /\ Forall is_Some buf /\ nth (Z.to_nat n) buf None = Some 0.
+Proof. exact decode_initialised. Qed.
+Print Assumptions b64_decode_initialised.
+
+Theorem b64_decode_no_oob :
+  forall s, bytes s -> decode s <> DOOB.
+Proof. exact decode_no_oob. Qed.
+Print Assumptions b64_decode_no_oob.
+
+(* the string-returning variant: empty in, empty out; otherwise the value iff it is NUL-free *)
+Theorem b64_str_exact :
+  forall s, bytes s ->
+    decode_str s =
+      if zlen s =? 0 then SOk []
+      else if valid_b64 s && negb (existsb (Z.eqb 0) (spec_decode s)) then SOk (spec_decode s)
+      else SNull.
+Proof. exact str_exact. Qed.
+Print Assumptions b64_str_exact.
